@@ -409,13 +409,21 @@ func MessageFromWireFormat(buf []byte) (Message, error) {
 // compression.
 type messageBuilder struct {
 	w         bytes.Buffer
-	nameCache map[string]int
+	nameCache map[string]nameCacheEntry
+}
+
+// nameCacheEntry records where a name (suffix) has been encoded in the message
+// and how many compression pointers a reader follows when decoding it from
+// there.
+type nameCacheEntry struct {
+	offset   int
+	pointers int
 }
 
 // newMessageBuilder creates a new messageBuilder with an empty name cache.
 func newMessageBuilder() *messageBuilder {
 	return &messageBuilder{
-		nameCache: make(map[string]int),
+		nameCache: make(map[string]nameCacheEntry),
 	}
 }
 
@@ -428,15 +436,25 @@ func (builder *messageBuilder) Bytes() []byte {
 // compression pointers to previously written names if possible.
 func (builder *messageBuilder) WriteName(name Name) error {
 	// https://tools.ietf.org/html/rfc1035#section-3.1
+	// Has a suffix of name already been encoded in the message? If so, we
+	// can write a compression pointer in its place, provided that the
+	// offset fits in a pointer and that decoding through it stays within
+	// compressionPointerLimit (a cached suffix may itself end in a pointer;
+	// readName would refuse a longer chain).
+	split := len(name)
+	var target nameCacheEntry
 	for i := range name {
-		// Has this suffix already been encoded in the message?
-		if ptr, ok := builder.nameCache[name[i:].String()]; ok && ptr&0x3fff == ptr {
-			// If so, we can write a compression pointer.
-			return binary.Write(&builder.w, binary.BigEndian, uint16(0xc000|ptr))
+		if entry, ok := builder.nameCache[name[i:].String()]; ok &&
+			entry.offset&0x3fff == entry.offset && entry.pointers < compressionPointerLimit {
+			split = i
+			target = nameCacheEntry{entry.offset, entry.pointers + 1}
+			break
 		}
+	}
+	for i := 0; i < split; i++ {
 		// Not cached; we must encode this label verbatim. Store a cache
 		// entry pointing to the beginning of it.
-		builder.nameCache[name[i:].String()] = builder.w.Len()
+		builder.nameCache[name[i:].String()] = nameCacheEntry{builder.w.Len(), target.pointers}
 		length := len(name[i])
 		if length == 0 || length > 63 {
 			panic(length)
@@ -449,6 +467,9 @@ func (builder *messageBuilder) WriteName(name Name) error {
 		if err != nil {
 			return err
 		}
+	}
+	if split < len(name) {
+		return binary.Write(&builder.w, binary.BigEndian, uint16(0xc000|target.offset))
 	}
 	return builder.w.WriteByte(0)
 }
